@@ -68,7 +68,7 @@ type Prediction struct {
 // walk lists the packages of a type in the order populateImports meets them.
 func walk(t T, out *[]int) {
 	switch t.K {
-	case "named":
+	case "named", "alias":
 		if t.P >= -1 {
 			*out = append(*out, t.P)
 		}
